@@ -486,7 +486,10 @@ Open ==
           IN /\ verdict' = IF okState THEN verdict ELSE "notallowed"
              /\ mem' = r.m /\ tracked' = r.files /\ wfile' = r.file /\ woff' = r.off
              /\ exists' = r.files /\ sized' = r.szd
-             /\ done' = x /\ pendP' = << x >> /\ pendW' = << x >> /\ inflight' = NoCall
+             \* what the OS holds now is x; what is DURABLE is x only after a power loss (a clean
+             \* close flushes but does not fsync; a process-crash image was not necessarily synced)
+             /\ done' = x /\ pendP' = << x >> /\ inflight' = NoCall
+             /\ pendW' = IF lastLoss = "power" /\ ~clean THEN << x >> ELSE AddPend(pendW, x)
              \* C04 speaks of crashes under a flush-per-operation policy (process model): there the
              \* ghost survives; elsewhere a crash legitimately loses unpersisted positions
              /\ assigned' = IF clean \/ (Policy \in {"always_flush", "always_fsync"} /\ lastLoss = "process")
@@ -548,6 +551,6 @@ BufInv == (mode = "Closed") \/ (buffered <= BlockSize /\ osCnt + buffered = Tota
 (* everything ahead of the write cursor is zero: the writer never resumes in front of old bytes *)
 ZerosAhead ==
   (mode = "Ready") => \A i \in 1..Len(items) :
-      (~items[i].gone /\ items[i].vis = items[i].n) =>
+      (~items[i].gone /\ items[i].t # 0 /\ items[i].vis = items[i].n) =>   \* padding is zeros
           items[i].file < wfile \/ (items[i].file = wfile /\ items[i].off + items[i].n <= woff) \/ items[i].file \notin exists
 =============================================================================
